@@ -72,7 +72,10 @@ def scenario(rng):
         return lines
     lines.append("MAIN " + " ".join(ops_with_dump(rng, rng.randint(0, 8))))
     for k in range(1, rng.randint(2, 3) + 1):
-        lines.append("THREAD %d %s" % (k, " ".join(rand_ops(rng, rng.randint(4, 12), nslots=5, fill_heavy=True))))
+        tops = rand_ops(rng, rng.randint(4, 12), nslots=5, fill_heavy=True)
+        if rng.random() < 0.35:                      # a dump while the other threads allocate and release
+            tops.insert(rng.randrange(len(tops) + 1), "D")
+        lines.append("THREAD %d %s" % (k, " ".join(tops)))
     lines.append("POST " + " ".join(ops_with_dump(rng, rng.randint(1, 6))))
     return lines
 
